@@ -73,6 +73,9 @@ def scenarios(mod, rng):
                   ('call', dict(c, orders=[0, 2], angles=[202], bd=1, seed=sd()))])
         S.append([('seed', 1, (11, (0, 2), (22, 2), 1, 0), 'good'),
                   ('call', dict(c, orders=[0, 2], angles=[202], bd=1, seed=sd()))])
+        # 6 angles, 5 orders: the basis of a 3x3 image has the shape (18, 10) = (2*9, 9+1)
+        big = dict(orders=[0, 1, 2, 3, 4], angles=[10, 60, 110, 160, 210, 260], step=1, clip=0, bd=None)
+        S.append([('call', dict(big, n=3, seed=sd())), ('call', dict(big, n=9, seed=sd()))])
         S.append([('call', dict(c, orders=[0, 2], angles=[0, 202], bd=None, seed=sd())),
                   ('call', dict(c, orders=[0, 2], angles=[0, 102], bd=H.BADDIR, seed=sd())),
                   ('call', dict(c, orders=[0, 2], angles=[0, 102], bd=None, seed=sd()))])
@@ -100,70 +103,26 @@ def scenarios(mod, rng):
 
 
 # --------------------------------------------------------------------------
-# which recorded finding does a (shrunk) failing history show?
+# which finding does a (shrunk) failing history show?
 # --------------------------------------------------------------------------
 def classify(mod, ops, recs, out, ref):
     """Key of the finding a minimal failing history exhibits.  `recs` are the
-    records of ops[:-1]; ops[-1] is the failing call."""
+    records of ops[:-1]; ops[-1] is the failing call.  All defects found while
+    this check was built are fixed in /repo (cbc57b0 .. 2e99c37, 5c177c1); one
+    is left."""
     last = ops[-1][1]
-    earlier_calls = [r for r in recs if r['op'][0] == 'call']
-    raised = [r for r in earlier_calls if r['out'][0] == 'exc']
-    if mod == 'daun':
-        if any(r['op'][1]['bd'] == H.BADDIR for r in raised):
-            return 'C07:daun:failed-save-leaves-basis-without-key'
-        if last['degree'] == 3 and any(k[2] == 3 and k[1] > last['n'] for k in (recs[-1]['state']['listing'] if recs else [])):
-            return 'C07:daun:degree3-crops-larger-basis-file'
-    if mod == 'linbasex':
-        prev = [r['op'][1] for r in earlier_calls]
-        # files that appeared in the directory count like earlier calls
-        prev += [dict(orders=list(o[2][1]), angles=list(o[2][2])) for o in ops if o[0] == 'seed']
-        for p in prev:
-            if p['orders'] != last['orders'] and ''.join(map(str, p['orders'])) == ''.join(map(str, last['orders'])):
-                return 'C07:linbasex:key-collision-orders'
-            if p['angles'] != last['angles'] and ''.join(str(a // 4) for a in p['angles']) == \
-                    ''.join(str(a // 4) for a in last['angles']):
-                return 'C07:linbasex:key-collision-angles'
-        if raised:
-            return 'C07:linbasex:keys-assigned-before-basis-exists'
-    if mod == 'rbasex':
-        if any(o[0] == 'call' and o[1].get('kind') == 'getbs' for o in ops):
-            return 'C07:rbasex:transform-matrices-not-keyed-by-valid'
-        if any(o[0] == 'mutw' for o in ops):
-            return 'C07:rbasex:weights-cached-by-identity'
-        if out[0] == 'exc' and out[1] == 'AttributeError' and any(H.Rbasex.RMAXS[r['op'][1]['rmax']] == 'foo' for r in raised):
-            return 'C07:rbasex:failed-call-leaves-half-built-distributions'
-        if any(H.Rbasex.RMAXS[r['op'][1]['rmax']] == 'foo' for r in raised):
-            return 'C07:rbasex:prm-assigned-before-distributions-built'
-        if last['reg'] in (8, 9) and any(r['op'][1]['reg'] == last['reg'] for r in raised):
-            return 'C07:rbasex:tri-prm-assigned-before-reg-checked'
-        if any(r['op'][1]['reg'] in (8, 9) for r in raised):
-            return 'C07:rbasex:tri-prm-assigned-before-reg-checked'
-        if any(r['op'][1]['bd'] == H.BADDIR for r in raised):
-            return 'C07:rbasex:bs-prm-assigned-before-load'
-        if last['out'] != 5 and any(r['op'][1]['out'] not in (5, last['out']) for r in earlier_calls):
-            return 'C07:rbasex:image-basis-not-keyed-by-output-geometry'
+    if mod == 'linbasex' and out[0] == 'exc':
+        prev = [r['op'][1] for r in recs if r['op'][0] == 'call']
+        if any(p['n'] != last['n'] and p['orders'] == last['orders'] and p['angles'] == last['angles'] for p in prev):
+            return 'C07:linbasex:memory-test-ignores-image-size'
     kinds = '/'.join(o[0] for o in ops)
     return 'C07:%s:unclassified:%s' % (mod, kinds)
 
 
 WHAT = {
-    'C07:daun:degree3-crops-larger-basis-file':
-        'daun degree=3: a larger cubic-spline basis file on disk is loaded and cropped for a smaller image',
-    'C07:daun:failed-save-leaves-basis-without-key':
-        'daun: a call whose np.save fails (unwritable basis_dir) leaves the new _bs next to the old _bs_prm',
-    'C07:linbasex:key-collision-orders': 'linbasex: Legendre-order lists with the same concatenated digits share a cache key / file',
-    'C07:linbasex:key-collision-angles': 'linbasex: projection angles within 1 % of pi share a cache key / file',
-    'C07:linbasex:keys-assigned-before-basis-exists': 'linbasex: cache keys are assigned before the basis is loaded / generated',
-    'C07:rbasex:weights-cached-by-identity': 'rbasex: weights compared by identity; in-place change gives stale results',
-    'C07:rbasex:failed-call-leaves-half-built-distributions':
-        'rbasex: after a call that raises inside Distributions the next valid call raises AttributeError',
-    'C07:rbasex:prm-assigned-before-distributions-built': 'rbasex: _prm assigned before the Distributions object is usable',
-    'C07:rbasex:tri-prm-assigned-before-reg-checked':
-        'rbasex: _tri_prm assigned before reg is validated; repeating the invalid call returns stale matrices',
-    'C07:rbasex:bs-prm-assigned-before-load': 'rbasex: _bs_prm assigned before _load_bs; a raising load leaves the old basis under the new key',
-    'C07:rbasex:image-basis-not-keyed-by-output-geometry': 'rbasex: _ibs image basis reused for another output geometry',
-    'C07:rbasex:transform-matrices-not-keyed-by-valid':
-        'rbasex: _trf / _tri are not keyed by the valid mask; the public get_bs_cached returns (and can leave behind) matrices masked for another mask',
+    'C07:linbasex:memory-test-ignores-image-size':
+        'linbasex: the memory-cache test compares _basis.shape with (2*cols, cols+1) but not the image size; a basis cached for '
+        'another image size with the same orders/angles (e.g. 6 angles, 5 orders: 3x3 then 9x9 image) passes it and the call raises LinAlgError',
 }
 
 
@@ -336,7 +295,10 @@ def run(ctx):
                     n_calls += 1
                     ref2 = None
                     if r['out'][0] == 'ok' and r['ref'][0] == 'exc':
-                        ref2 = worker.ask(mod, ad.ref_call(dict(r['op'][1], bd=None)))
+                        c2 = dict(r['op'][1], bd=None)
+                        if mod == 'rbasex' and c2.get('wid'):
+                            c2['wver'] = r['aux']['wver']      # the weights content at the time of the call
+                        ref2 = worker.ask(mod, ad.ref_call(c2))
                     v = H.verdict('C07', r['out'], r['ref'], ref2)
                     if v is None:
                         continue
@@ -345,6 +307,7 @@ def run(ctx):
                     pre = classify(mod, ops, h[:si], r['out'], r['ref'])
                     g = groups.setdefault(pre, [])
                     g.append((len(ops), mod, ops))
+                    ctx.cov.setdefault('first_verdicts', {}).setdefault(pre, '%s | last op %r' % (v, ops[-1]))
         # shrink the shortest failing histories of every group
         n_shrunk = 0
         for pre in sorted(groups, key=lambda k: ('unclassified' in k, k)):
@@ -396,9 +359,9 @@ def run(ctx):
     ctx.assumptions += [
         'theorems are about hand-written state machines (coq/model/Cache*.v) with symbolic contents; their tie to /repo is the '
         'correspondence run of this check (observable state + outcome class + agreement with fresh result after every operation)',
-        'history independence is proved for basex, daun and the three Dasch methods for ALL hazard-free histories; for linbasex '
-        'with key collisions excluded (_partial); for rbasex only the refutation theorems are proved, the positive statement is '
-        'covered by correspondence + search only',
+        'history independence is proved for all five modules for ALL histories satisfying the environment assumptions (writable '
+        'directories, good files on disk are what a save writes, Distributions quantities are functions of parameters and weights '
+        'content); linbasex keeps one exclusion (memory test ignores the image size: remaining finding)',
         '"same result" is measured with max-norm relative tolerance 1e-7 on the implementation',
         'entries of a basis depend only on what its symbolic tag records (basex: sigma,i,k; daun degree<=2: degree,i,j; daun '
         'degree 3: also n; dasch: method,i,j; rbasex: n,R,r): read from the generating code, validated by the search, and for '
